@@ -23,6 +23,7 @@ type Case struct {
 	BaseOpts Opts            `json:"baseOpts"`
 	Relation string          `json:"relation"`
 	Pres     int             `json:"pres"`
+	Empty    []string        `json:"empty"` // members written as zero-byte files
 }
 
 type Run struct {
@@ -38,6 +39,7 @@ type Run struct {
 
 type Record struct {
 	Case     string          `json:"case"`
+	Empty    abs.Seq[string] `json:"empty"`
 	Feed     json.RawMessage `json:"feed"`
 	Opts     Opts            `json:"opts"`
 	Base     json.RawMessage `json:"base"`
@@ -49,11 +51,22 @@ type Record struct {
 
 // ParseOnce renders, self-checks, parses with the real ParseStatic (hooks recording accepted rows) and projects.
 func ParseOnce(f Feed, o Opts, p Presentation) (run Run, harnessErr error) {
+	return ParseOnceEmpty(f, o, p, nil)
+}
+
+// ParseOnceEmpty is ParseOnce with the named members written as zero-byte files.
+func ParseOnceEmpty(f Feed, o Opts, p Presentation, empty []string) (run Run, harnessErr error) {
 	run = Run{Pres: p.Name, Accepted: map[string]abs.Seq[int]{}}
 	for _, file := range FileOrder {
 		run.Accepted[file] = abs.Seq[int]{}
 	}
 	b, rendered := Render(f, p)
+	if len(empty) > 0 {
+		b = ReplaceMembers(b, empty)
+		for _, name := range empty {
+			delete(rendered, name)
+		}
+	}
 	if err := SelfCheck(b, rendered); err != nil {
 		return run, fmt.Errorf("renderer self-check failed (%s): %v", p.Name, err)
 	}
@@ -146,9 +159,9 @@ func RunCase(id string, c Case, seed int64, w *abs.Writer) (crashes []string, er
 	if err := json.Unmarshal(c.Feed, &f); err != nil {
 		return nil, fmt.Errorf("bad feed: %v", err)
 	}
-	rec := Record{Case: id, Feed: c.Feed, Opts: c.Opts, Base: c.Base, BaseOpts: c.BaseOpts, Relation: c.Relation}
+	rec := Record{Case: id, Feed: c.Feed, Opts: c.Opts, Base: c.Base, BaseOpts: c.BaseOpts, Relation: c.Relation, Empty: c.Empty}
 	for _, p := range Presentations(c.Pres, seed) {
-		run, herr := ParseOnce(f, c.Opts, p)
+		run, herr := ParseOnceEmpty(f, c.Opts, p, c.Empty)
 		if herr != nil {
 			return nil, herr
 		}
